@@ -359,6 +359,19 @@ func generate(family string, rng *rand.Rand, thorough bool) []plan {
 				}
 			}
 		}
+		// Emit under Try whose function fails for ever from some index on (an exhausted source): after the cancel the
+		// error path must notice it too - the goroutine exits and both channels close, errors read or not
+		for r := 0; r < 6*mul; r++ {
+			freq := []int{1, 3}[rng.Intn(2)]
+			k := rng.Intn(3)
+			ecap := rng.Intn(3)
+			var sc []intent
+			for j := 0; j < k+2; j++ {
+				sc = append(sc, intent{kind: "sleep", d: freq}, intent{kind: "recv", k: 0}, intent{kind: "recv", k: 1})
+			}
+			sc = append(sc, intent{kind: "cancel"}, intent{kind: "sleep", d: (ecap + 3) * freq})
+			add(plan{stage: &Stage{Kind: "emit", N: ecap, Freq: freq, A: 1, B: 0, Fail: &Fail{Kind: "ge", M: k}, Try: true}, sched: &scripted{script: sc}, maxMoves: 40, drain: r%2 == 0, gen: "absent-consumer"})
+		}
 	case "C07":
 		// every subset of failing positions for short inputs, all four modes
 		maxLen := 4
@@ -393,6 +406,9 @@ func generate(family string, rng *rand.Rand, thorough bool) []plan {
 			fl := &Fail{Kind: "modeq", M: rng.Intn(3) + 2, R: rng.Intn(2)}
 			add(plan{stage: &Stage{Kind: "emit", N: rng.Intn(3), Freq: []int{1, 3}[rng.Intn(2)], A: 1, B: 0, Fail: fl, Try: try}, sched: rnd(0, 0, 4, 0, 0, 3, []int{1, 3}), maxMoves: 30, drain: true, gen: "random-timed"})
 			add(plan{stage: &Stage{Kind: "unfold", N: rng.Intn(3), Seed: rng.Intn(3), A: 1, B: 1, Fail: &Fail{Kind: "in", Xs: []int{rng.Intn(6) + 1}}, Try: false}, sched: rnd(0, 0, 4, 0, 0, 0, nil), maxMoves: 30, drain: true, gen: "random"})
+			// Unfold under Try: the failing seed is delivered, its error reported, and the sequence goes on from what
+			// the function returned together with the error (the zero value), never from the failed seed again
+			add(plan{stage: &Stage{Kind: "unfold", N: rng.Intn(3), Seed: 1 + rng.Intn(3), A: 1, B: 1, Fail: &Fail{Kind: "in", Xs: []int{rng.Intn(4) + 2}}, Try: true}, sched: rnd(0, 0, 4, 0, 0, 0, nil), maxMoves: 30, drain: true, gen: "random"})
 		}
 		// StdErr: reads every error until the channel closes and logs the non-nil ones (0 = nil); it takes no
 		// context, so a cancel does not concern it
@@ -418,6 +434,7 @@ func generate(family string, rng *rand.Rand, thorough bool) []plan {
 					{Kind: "filter", Pred: preds(rng)},
 					{Kind: "partition", Pred: preds(rng)},
 					{Kind: "foreach"},
+					{Kind: "foreach", Fail: &Fail{Kind: "modeq", M: 2, R: rng.Intn(2)}, Try: rng.Intn(2) == 0},
 					{Kind: "void"},
 				}
 				for _, inner := range inners {
@@ -497,6 +514,10 @@ func generate(family string, rng *rand.Rand, thorough bool) []plan {
 			}
 			add(plan{stage: &Stage{Kind: "emit", N: rng.Intn(4), Freq: freq, A: 2, B: 1}, sched: &scripted{script: sc}, maxMoves: 40, drain: true, gen: "keeps-up"})
 			add(plan{stage: &Stage{Kind: "unfold", N: rng.Intn(4), Seed: rng.Intn(5), A: rng.Intn(2) + 1, B: rng.Intn(3) + 1}, sched: rnd(0, 0, 5, wc, 0, 0, nil), maxMoves: 30, drain: true, gen: "random"})
+			if rep%4 == 0 {
+				// under Try a failing step is reported and the sequence goes on from what the function returned (zero)
+				add(plan{stage: &Stage{Kind: "unfold", N: rng.Intn(3), Seed: 1 + rng.Intn(3), A: 1, B: 1, Fail: &Fail{Kind: "in", Xs: []int{rng.Intn(4) + 2}}, Try: true}, sched: rnd(0, 0, 4, wc, 0, 0, nil), maxMoves: 30, drain: true, gen: "random"})
+			}
 			// absent consumer: a few receives (or none), cancel, and nobody receives again
 			ucap := rng.Intn(3)
 			var ab []intent
@@ -505,6 +526,14 @@ func generate(family string, rng *rand.Rand, thorough bool) []plan {
 			}
 			ab = append(ab, intent{kind: "cancel"})
 			add(plan{stage: &Stage{Kind: "unfold", N: ucap, Seed: rng.Intn(5), A: 2, B: 1}, sched: &scripted{script: ab}, maxMoves: 10, drain: false, gen: "absent-consumer"})
+			// after the cancel the consumer parks in a blocking receive and takes whatever comes: the generator must
+			// notice the cancel although its send never has to wait
+			var pk []intent
+			for j := 0; j < rng.Intn(4); j++ {
+				pk = append(pk, intent{kind: "recv", k: 0})
+			}
+			pk = append(pk, intent{kind: "cancel"}, intent{kind: "park", k: 0}, intent{kind: "park", k: 1})
+			add(plan{stage: &Stage{Kind: "unfold", N: rng.Intn(3), Seed: rng.Intn(5), A: 1, B: 1}, sched: &scripted{script: pk}, maxMoves: 12, drain: false, gen: "parked-consumer"})
 			// fail-fast (Lift) function failing at some point, nobody reading the error channel: the generator hands
 			// its error over with a plain send, returns and closes both channels - whatever the capacity - before
 			// or after the cancel
